@@ -867,7 +867,7 @@ Definition observe (s : state) (rw : N) :=
   | None => None
   | Some i =>
       let r := (rw, i_root i) in
-      Some ((flagN (dangling s r), flagN (is_some (i_parent i))),
+      Some ((flagN (dangling s r), flagN (is_some (i_parent i)), flagN (wf_state s)),
             (root_preimage s r,
              (acc_root_preimage (from_state s) r,
               (canon_content (reach_content s r), skeletonN (reach_content s r)))))
@@ -883,7 +883,7 @@ Definition observe_ops (s : state) (rw : N) (ops : list wop) :=
        | None => None
        | Some i =>
            let r := (rw, i_root i) in
-           Some ((flagN (dangling s' r), flagN (is_some (i_parent i))),
+           Some ((flagN (dangling s' r), flagN (is_some (i_parent i)), flagN (wf_state s')),
                  (root_preimage s' r,
                   (match acc_apply (from_state s) ops with
                    | Some a => Some (acc_root_preimage a r)
